@@ -397,8 +397,8 @@ theorem setInertial_addBodyMovable {m : ModelS α} {parent : Nat} {frame : XT α
       = ((m.addBodyMovable parent frame j (updB b) name).1, .ok ()) :=
   ModelS.setterOK_addBodyMovable m parent frame j name hlen hsmall b m1 id hadd updB updF
 example (updB : Body Rat → Body Rat) (updF : FixedBody Rat → FixedBody Rat) :
-    (ModelS.init.addBodyMovable 0 Ex.X Ex.jz Ex.A "a").1.setInertial 1 updB updF
-      = ((ModelS.init.addBodyMovable 0 Ex.X Ex.jz (updB Ex.A) "a").1, .ok ()) :=
+    (ModelS.init.addBodyMovable 0 Ex.X Ex.jzS5 Ex.A "a").1.setInertial 1 updB updF
+      = ((ModelS.init.addBodyMovable 0 Ex.X Ex.jzS5 (updB Ex.A) "a").1, .ok ()) :=
   setInertial_addBodyMovable updB updF rfl rfl (by decide)
 
 /-- setters, movable body: `Model::AddBody` with any joint type except the fixed joint (single-DoF,
@@ -415,7 +415,7 @@ theorem setInertial_addBody {m : ModelS α} {parent : Nat} {frame : XT α} {j : 
   ModelS.setterOK_addBody m parent frame j name hjt hlen hsmall b m1 id hadd updB updF
 example (updB : Body Rat → Body Rat) (updF : FixedBody Rat → FixedBody Rat) :
     Ex.mA.setInertial 1 updB updF
-      = ((ModelS.init.addBody 0 Ex.X Ex.jz (updB Ex.A) "a").1, .ok ()) :=
+      = ((ModelS.init.addBody 0 Ex.X Ex.jzS5 (updB Ex.A) "a").1, .ok ()) :=
   setInertial_addBody updB updF (by decide) Ex.mA_add rfl (by decide)
 /-- a 3-DoF emulated joint (two massless virtual bodies, then the body) -/
 example (updB : Body Rat → Body Rat) (updF : FixedBody Rat → FixedBody Rat) :
@@ -475,16 +475,16 @@ theorem setBodyInertialParameters_addBody {m : ModelS α} {parent : Nat} {frame 
           .ok ()) :=
   setInertial_addBody _ _ hjt hadd hlen hsmall
 example : Ex.mA.setBodyMass 1 7
-    = ((ModelS.init.addBody 0 Ex.X Ex.jz { Ex.A with mass := 7 } "a").1, .ok ()) :=
+    = ((ModelS.init.addBody 0 Ex.X Ex.jzS5 { Ex.A with mass := 7 } "a").1, .ok ()) :=
   setBodyMass_addBody (by decide) Ex.mA_add rfl (by decide) 7
 example : Ex.mA.setBodyInertia 1 Ex.Ic2
-    = ((ModelS.init.addBody 0 Ex.X Ex.jz { Ex.A with inertia := Ex.Ic2 } "a").1, .ok ()) :=
+    = ((ModelS.init.addBody 0 Ex.X Ex.jzS5 { Ex.A with inertia := Ex.Ic2 } "a").1, .ok ()) :=
   setBodyInertia_addBody (by decide) Ex.mA_add rfl (by decide) _
 example : Ex.mA.setBodyCenterOfMass 1 ⟨1, 2, 3⟩
-    = ((ModelS.init.addBody 0 Ex.X Ex.jz { Ex.A with com := ⟨1, 2, 3⟩ } "a").1, .ok ()) :=
+    = ((ModelS.init.addBody 0 Ex.X Ex.jzS5 { Ex.A with com := ⟨1, 2, 3⟩ } "a").1, .ok ()) :=
   setBodyCenterOfMass_addBody (by decide) Ex.mA_add rfl (by decide) _
 example : Ex.mA.setBodyInertialParameters 1 7 Ex.Ic2 ⟨1, 2, 3⟩
-    = ((ModelS.init.addBody 0 Ex.X Ex.jz
+    = ((ModelS.init.addBody 0 Ex.X Ex.jzS5
         { Ex.A with mass := 7, inertia := Ex.Ic2, com := ⟨1, 2, 3⟩ } "a").1, .ok ()) :=
   setBodyInertialParameters_addBody (by decide) Ex.mA_add rfl (by decide) _ _ _
 
@@ -677,7 +677,7 @@ example (updB : Body Rat → Body Rat) :
     mB.setInertial fixedDisc updB (fun f => { f with mass := 7, com := ⟨1, 2, 3⟩ })
       = ((mA.addBodyFixed 1 X ⟨7, ⟨1, 2, 3⟩, B.inertia, false⟩ "b").1, .ok ()) := by
   have hadd : mA.addBodyFixed 1 X B "b" = (mB, .ok fixedDisc) := by
-    rw [← ModelS.addBody_fixed mA 1 X jfix B "b" rfl]; exact mB_add
+    rw [← ModelS.addBody_fixed mA 1 X jfixS5 B "b" rfl]; exact mB_add
   have h := setInertial_addBodyFixed updB (fun f => { f with mass := 7, com := ⟨1, 2, 3⟩ })
     (fun _ => ⟨rfl, rfl⟩) hadd (by decide) _ rfl A (by rw [mB_fixedBody]; rfl) (by rw [mB_fixedBody]; decide)
     A_symm (Or.inl A_mass) (Or.inl (by simp only [alg]; grind)) (Or.inl rfl)
@@ -685,28 +685,28 @@ example (updB : Body Rat → Body Rat) :
   exact h
 example (updB : Body Rat → Body Rat) :
     mB.setInertial fixedDisc updB (fun f => { f with mass := 7, com := ⟨1, 2, 3⟩ })
-      = ((mA.addBody 1 X jfix ⟨7, ⟨1, 2, 3⟩, B.inertia, false⟩ "b").1, .ok ()) := by
+      = ((mA.addBody 1 X jfixS5 ⟨7, ⟨1, 2, 3⟩, B.inertia, false⟩ "b").1, .ok ()) := by
   have h := setInertial_addBody_fixed updB (fun f => { f with mass := 7, com := ⟨1, 2, 3⟩ })
     (fun _ => ⟨rfl, rfl⟩) rfl mB_add (by decide) _ rfl A (by rw [mB_fixedBody]; rfl)
     (by rw [mB_fixedBody]; decide) A_symm (Or.inl A_mass) (Or.inl (by simp only [alg]; grind)) (Or.inl rfl)
   rw [mB_fixedBody] at h
   exact h
 example : mB.setBodyInertialParameters fixedDisc 7 Ic ⟨1, 2, 3⟩
-    = ((mA.addBody 1 X jfix ⟨7, ⟨1, 2, 3⟩, Ic, false⟩ "b").1, .ok ()) :=
+    = ((mA.addBody 1 X jfixS5 ⟨7, ⟨1, 2, 3⟩, Ic, false⟩ "b").1, .ok ()) :=
   setBodyInertialParameters_addBody_fixed rfl mB_add (by decide) A (by rw [mB_fixedBody]; rfl)
     (by rw [mB_fixedBody]; decide) A_symm (Or.inl A_mass) 7 Ic ⟨1, 2, 3⟩
     (Or.inl (by simp only [alg]; grind)) (Or.inl rfl)
 example : mB.setBodyMass fixedDisc 7
-    = ((mA.addBody 1 X jfix ⟨7, B.com, B.inertia, false⟩ "b").1, .ok ()) :=
+    = ((mA.addBody 1 X jfixS5 ⟨7, B.com, B.inertia, false⟩ "b").1, .ok ()) :=
   setBodyMass_addBody_fixed rfl mB_add (by decide) A (by rw [mB_fixedBody]; rfl)
     (by rw [mB_fixedBody]; decide) A_symm (Or.inl A_mass) 7
     (Or.inl (by simp only [alg]; grind)) (Or.inl rfl)
 example : mB.setBodyInertia fixedDisc Ic
-    = ((mA.addBody 1 X jfix ⟨B.mass, B.com, Ic, false⟩ "b").1, .ok ()) :=
+    = ((mA.addBody 1 X jfixS5 ⟨B.mass, B.com, Ic, false⟩ "b").1, .ok ()) :=
   setBodyInertia_addBody_fixed rfl mB_add (by decide) A (by rw [mB_fixedBody]; rfl)
     (by rw [mB_fixedBody]; decide) A_symm (Or.inl A_mass) Ic (Or.inl AB_mass) (Or.inl rfl)
 example : mB.setBodyCenterOfMass fixedDisc ⟨1, 2, 3⟩
-    = ((mA.addBody 1 X jfix ⟨B.mass, ⟨1, 2, 3⟩, B.inertia, false⟩ "b").1, .ok ()) :=
+    = ((mA.addBody 1 X jfixS5 ⟨B.mass, ⟨1, 2, 3⟩, B.inertia, false⟩ "b").1, .ok ()) :=
   setBodyCenterOfMass_addBody_fixed rfl mB_add (by decide) A (by rw [mB_fixedBody]; rfl)
     (by rw [mB_fixedBody]; decide) A_symm (Or.inl A_mass) ⟨1, 2, 3⟩ (Or.inl rfl)
 end
